@@ -138,15 +138,20 @@ class Analysis:
                         s.add_fact(("canonical", recv.key()))
                     res.append((kind, s, v))
                 return res
-            if q == "message:Message.encode" and a.lemmas_enabled["copy"]:
+            if q == "message:Message.encode":
                 recv = fn.recv if isinstance(fn, BoundV) else (args[0] if args else None)
                 outs = orig_call_func(st, fn, args, kwargs, node)
+                res = []
                 for kind, s, v in outs:
                     if kind == "val" and recv is not None and isinstance(v, V) and not isinstance(v, Const):
-                        if ("canonical", recv.key()) in s.facts:
-                            s.add_fact(("encoded_canonical", v.key()))
-                        s.add_fact(("encodedof", v.key(), recv.key()))
-                return outs
+                        # name the result after the message and the moment it was encoded
+                        nv = Unknown("str", label=f"encoded:{recv.key()!r}@{len(s.events)}")
+                        if a.lemmas_enabled["copy"] and ("canonical", recv.key()) in s.facts:
+                            s.add_fact(("encoded_canonical", nv.key()))
+                        s.add_fact(("encodedof", nv.key(), recv.key()))
+                        v = nv
+                    res.append((kind, s, v))
+                return res
             if q == "message:Message.validate" and a.lemmas_enabled["validated"]:
                 recv = fn.recv if isinstance(fn, BoundV) else (args[0] if args else None)
                 outs = orig_call_func(st, fn, args, kwargs, node)
